@@ -59,7 +59,7 @@ func (h ProtectedHeader) MarshalCBOR() ([]byte, error) {
 		if err != nil {
 			return nil, fmt.Errorf("protected header: %w", err)
 		}
-		encoded, err = encMode.Marshal(map[any]any(h))
+		encoded, err = encModeProtected.Marshal(map[any]any(h))
 		if err != nil {
 			return nil, err
 		}
